@@ -157,6 +157,32 @@ def entry(key, value, st, indent_cont=True):
   return out
 
 
+def formula_layout(text, st):
+  """Layouts of one formula that mean the same to the expression parser: continued over several lines (a newline is
+  white space), with end-of-line comments ('// ...', '# ...') and inline '/* ... */' comments as exprtk allows."""
+  c = st.rng.random()
+  if c < 0.65:
+    return text
+  parts = text.split(" + ") if " + " in text else text.split(" * ")
+  sepr = " + " if " + " in text else " * "
+  if len(parts) < 2:
+    return text
+  out = ""
+  for i, p_ in enumerate(parts):
+    last = i == len(parts) - 1
+    out += p_
+    if not last:
+      out += sepr.rstrip()
+      r = st.rng.random()
+      if r < 0.5:
+        out += st.rng.choice(["", "  // first part", " # note + 1", " /* inline */", "  // - 5*r"]) + "\n"
+      else:
+        out += " " + st.rng.choice(["", "/* c */ "])
+  if st.rng.random() < 0.3:
+    out += st.rng.choice(["  // trailing comment", " # trailing * 0"])
+  return out
+
+
 def decorate(sec_text, st):
   """Things a hand-edited file contains and that mean nothing: full-line comments ('#', ';') and blank lines between
   the entries of a section, trailing blanks, an indented section-less comment.  Continuation lines stay attached to
@@ -221,7 +247,7 @@ def model_text(model, st=None, extra_sections=None):
     s = ["[Potential-Form]"]
     for f in model["forms"]:
       sig = "%s(%s)" % (f["name"], st.pick([", ", ",", " , "]).join(f["params"]))
-      s.append(entry(sig, expr_text(f["expr"]), st).replace(" : ", " = ", 1) if st.plain else entry(sig, expr_text(f["expr"]), st))
+      s.append(entry(sig, expr_text(f["expr"]), st).replace(" : ", " = ", 1) if st.plain else entry(sig, formula_layout(expr_text(f["expr"]), st), st))
     secs.append("\n".join(s))
   for tbl in model.get("tables") or []:
     s = ["[Table-Form:%s]" % tbl["name"]]
